@@ -168,7 +168,7 @@ def _scalar_outcome(args):
         return cid, {'out': 'other', 'exc': type(e).__name__ + ': ' + str(e)[:120]}
 
 
-ALPHA = '"\\,\n []{}<>():@`N1a\r$uTMR.-+e_%/CBin0259xZz'
+ALPHA = '"\\,\n []{}<>():@`N1a\r$uTMR.-+e_%/CBin0259xZz\t'
 
 
 def run(tier):
